@@ -475,7 +475,7 @@ class Quantity(metaclass=Dimension):
     @register(function.curvature)
     def __evaluate(op, *args, **kwargs):
         (dim0, arg0), = Quantity.__unpack(args[0])
-        return (dim0**-1).wrap(op(*args, **kwargs))
+        return (dim0**-1).wrap(op(arg0, *args[1:], **kwargs))
 
     @register(function.evaluate)
     def __evaluate(op, *args, **kwargs):
